@@ -106,7 +106,8 @@ def make_tagger(variant_seed: int, density: float):
 def run(ctx: common.Ctx):
     ctx.assumptions += [
         "as C01: loopy C target + gcc execute the kernels; executed, not verified",
-        "AssumeNonNegative is not an admissible tag here (a user promise lowering exploits)",
+        "AssumeNonNegative is a promise lowering exploits: it is only ever added TRUTHFULLY (to index arrays without "
+        "negative entries), in its own batch; the random tag stream does not use it",
     ]
     ctx.lean_obligations("PtProofs.C02", THEOREMS)
     from .c01 import THEOREMS_KERNEL
@@ -242,6 +243,7 @@ def run(ctx: common.Ctx):
     ctx.note_batch("tag-variants-vs-untagged-vs-reference", len(jobs), dis, exhaustive=False,
                    programs=nprog, variants_per_program=nvar + 1, tag_kinds_applied=allstats)
     batch_chained_name_tags(ctx)
+    batch_truthful_promise_tags(ctx)
     ctx.broken = sorted(set(ctx.broken))[:50]
 
 
@@ -317,6 +319,73 @@ def batch_chained_name_tags(ctx):
                           {"shape": sname, "p": a, "q": b})
     ctx.note_batch("chained-stored-intermediates-all-tag-pairs", len(jobs), dis, exhaustive=True,
                    explicit_named_conflicts=rejected)
+
+
+def batch_truthful_promise_tags(ctx):
+    """pytato's own AssumeNonNegative on index arrays, added TRUTHFULLY (the tagged array has no negative entry) to
+    every subset of the index arrays of an advanced index whose OTHER index arrays do contain negative entries:
+    a true promise about one array must not change what is read through another (lowered index lambda evaluated
+    with bounds checks, and the generated code)"""
+    import itertools
+    import pytato as pt
+    from pytato.tags import AssumeNonNegative
+    from ..ilinterp import eval_index_lambda
+    xv = np.arange(60.0).reshape(3, 4, 5)
+    x = pt.make_placeholder("x", xv.shape, np.float64)
+    idx_data = {"i": np.array([0, 2, 1, 2]), "j": np.array([-1, 3, -4, 0]), "k": np.array([4, -5, 2, -1])}
+    nonneg = {"i"}                                  # may be tagged truthfully
+    forms = {"x[i,j]": lambda i, j, k: x[i, j], "x[i,:,k]": lambda i, j, k: x[i, :, k], "x[i,j,k]": lambda i, j, k: x[i, j, k],
+             "x[:,j,k%5]": lambda i, j, k: x[:, j, k % 5], "x[i,j,1]": lambda i, j, k: x[i, j, 1],
+             "x[i % 3, -1, k]": lambda i, j, k: x[i % 3, -1, k]}
+    jobs, meta = [], []
+    cases = dis = 0
+    for fname, f in forms.items():
+        for tagged in [(), ("i",)]:
+            phs = {n: pt.make_placeholder(n, v.shape, np.int64) for n, v in idx_data.items()}
+            for n in tagged:
+                phs[n] = phs[n].tagged(AssumeNonNegative())
+            node = f(phs["i"], phs["j"], phs["k"])
+            ref = {"x[i,j]": lambda i, j, k: xv[i, j], "x[i,:,k]": lambda i, j, k: xv[i, :, k],
+                   "x[i,j,k]": lambda i, j, k: xv[i, j, k], "x[:,j,k%5]": lambda i, j, k: xv[:, j, k % 5],
+                   "x[i,j,1]": lambda i, j, k: xv[i, j, 1], "x[i % 3, -1, k]": lambda i, j, k: xv[i % 3, -1, k]}[fname](
+                       idx_data["i"], idx_data["j"], idx_data["k"])
+            cases += 1
+            label = f"{fname} with AssumeNonNegative on {list(tagged) or 'nothing'}"
+            il = pt.to_index_lambda(node) if not isinstance(node, pt.array.IndexLambda) else node
+            from ..refeval import evaluate as _ev
+            inp = dict(idx_data, x=xv)
+            try:
+                binds = {bn: _ev(bv, inp) for bn, bv in il.bindings.items()}
+                val, it = eval_index_lambda(il, binds)
+                oob = [o for o in it.oob]
+            except Exception as e:   # noqa: BLE001
+                ctx.broken.append(f"c07-promise:ilinterp:{type(e).__name__}:{str(e)[:60]}")
+                continue
+            if oob or not close(val, ref):
+                dis += 1
+                ctx.violation("tags:truthful-AssumeNonNegative-changes-values",
+                              f"{label}: the lowered index lambda "
+                              + (f"reads out of bounds {oob[:2]}" if oob else "differs from NumPy")
+                              + " — the promise is true of the tagged array; the other index arrays still need wrapping",
+                              {"form": fname, "tagged": list(tagged), "expr": str(il.expr)[:300]})
+                continue
+            jobs.append(cexec.Job(tag=label, expr=pt.make_dict_of_named_arrays({"o": node * 1.0}), runs=[inp], prep=_prep_dedup))
+            meta.append((label, ref))
+    res = cexec.run_jobs(ctx, jobs)
+    for (label, ref), r in zip(meta, res):
+        if r.error:
+            if not str(r.stage).startswith("c-"):
+                dis += 1
+                ctx.violation(f"tags:codegen-fails-when-tagged:{r.error_class}:{_short(r.error)}", f"{label}: {r.error[:300]}",
+                              {"case": label})
+            continue
+        got = r.outputs[0].get("o")
+        if got is None or not close(got, ref):
+            dis += 1
+            ctx.violation("tags:truthful-AssumeNonNegative-changes-values",
+                          f"{label}: generated code gives {None if got is None else np.asarray(got).reshape(-1)[:6].tolist()}…, "
+                          f"NumPy {ref.reshape(-1)[:6].tolist()}…", {"case": label})
+    ctx.note_batch("truthful-promise-tags(AssumeNonNegative)", cases, dis, exhaustive=True)
 
 
 def _describe_tags(p):
